@@ -218,6 +218,36 @@ def param_sync_rule(prog, res):
             res.viol('param-sync', 'POINT:FRAMES <- number of stored frames', fsrc.loc(fr[0][0]['id']), 'FRAMES is set from %s' % src, function=f0.sig, expr='frames-src')
         else:
             res.undecided('param-sync', 'POINT:FRAMES <- number of stored frames', fsrc.loc(fr[0][0]['id']), 'FRAMES is set from %s [shape not read by the rule]' % src, function=f0.sig, expr='frames-src')
+    # a `set` that is skipped when the value is unchanged must compare with the parameter it sets: `if (n != P(G, X)) P(G, X).set(n)`
+    import indexsites as _ISx
+    for f in fam:
+        R = Renderer(f)
+        for c in f.calls():
+            if c['callee']['name'] != 'set' or not c['callee']['qname'].endswith('Parameter::set') or f.call_obj(c) is None:
+                continue
+            o = R.render(f.call_obj(c))
+            mset = re.match(r'^this\._parameters\.group\("(\w+)"\)\.parameter\("(\w+)"\)$', o)
+            if not mset:
+                continue
+            key = mset.group(2)
+            for a_ in f.ancestors(c['id']):
+                an = f.nodes[a_]
+                if an['k'] != 'IfStmt' or 'else' in an or c['id'] not in f.descendants(an['then']):
+                    continue
+                cn = f.nodes[f.strip(an['cond'], 'all')]
+                if cn['k'] != 'BinaryOperator' or cn['op'] != '!=':
+                    break
+                sides = [R.render(x) for x in cn['ch']]
+                val = R.render(f.call_args(c)[0])
+                other = [s_ for s_ in sides if val not in s_ and s_ not in val]
+                if len(other) == 1:
+                    mo = re.search(r'parameter\("(\w+)"\)\.valuesAs', other[0])
+                    if mo and mo.group(1) != key:
+                        res.viol('param-sync', 'update of %s is skipped when unchanged' % key, f.loc(an['id']), '%s is (re)written only when the new value differs from %s: the test compares with another parameter, so a stale %s survives whenever '
+                                 'the new value happens to equal %s' % (key, mo.group(1), key, mo.group(1)), function=f0.sig, expr='skip-guard:' + key)
+                    elif mo:
+                        res.ok('param-sync', 'update of %s is skipped when unchanged' % key, f.loc(an['id']), 'compared with the parameter that is set', function=f0.sig, expr='skip-guard:%s@%d' % (key, an['id']), nontrivial=False)
+                break
     # the count locals (whatever they are called): assignments under data().nbFrames() > 0
     roles = {}
     for key, role in ((('POINT', 'USED'), 'points'), (('ANALOG', 'USED'), 'analogs')):
